@@ -4,11 +4,11 @@ package main
 // hypotheses) and solver racing.
 
 import (
-	"hash"
-	"crypto/sha256"
 	"bytes"
 	"context"
+	"crypto/sha256"
 	"fmt"
+	"hash"
 	"os"
 	"os/exec"
 	"sort"
